@@ -106,7 +106,11 @@ class TorchNNPureFunction(PureFunction):
 
     def _get_all_obj_params_init(self) -> List:
         # get the tensors in the torch.nn.Module to be used as params
-        named_params = list(self.obj.named_parameters())
+        # a parameter shared under several names (tied weights) is listed under every name
+        try:
+            named_params = list(self.obj.named_parameters(remove_duplicate=False))
+        except TypeError:  # older pytorch
+            named_params = list(self.obj.named_parameters())
         if len(named_params) == 0:
             paramnames: List[str] = []
             obj_params: List[Union[torch.Tensor, torch.nn.Parameter]] = []
